@@ -35,6 +35,21 @@ Definition eff_off (n : Z) (o : Qc) : Qc := (rnd32 (Qcz (n / 2) + o) - Qcz (n / 
 Definition krow (n it : Z) (o : Qc) (r : Z -> Qc) (y : Z) : Qc :=
   if ((0 <=? y) && (y <? n))%bool then row_out n it (sm_entry n it o) r y else 0%Qc.
 
+(** row (b,x) / column (b,y) of a flat bunch-major grid, as functions that vanish outside the
+    grid (the flat index of a cell outside 0 <= y < n would alias a neighbouring row) *)
+Definition in_range (n i : Z) : bool := ((0 <=? i) && (i <? n))%bool.
+Definition rowD (n : Z) (D : Z -> Qc) (b x : Z) (y : Z) : Qc :=
+  if in_range n y then D (didx n b x y) else 0%Qc.
+Definition colD (n : Z) (D : Z -> Qc) (b y : Z) (x : Z) : Qc :=
+  if in_range n x then D (didx n b x y) else 0%Qc.
+
+(** grid-level kicks as total functions (zero outside the nb*n*n cells); the list front-end
+    below computes exactly these ([getQ_kick_y_list] in Proofs/ForceP.v) *)
+Definition gkick_y (n nb it : Z) (offs D : Z -> Qc) (i : Z) : Qc :=
+  if in_range (nb * n * n) i then apply_y n nb it (updateSM n it offs) D i else 0%Qc.
+Definition gkick_x (n nb it : Z) (offs D : Z -> Qc) (i : Z) : Qc :=
+  if in_range (nb * n * n) i then apply_x n nb it (updateSM n it offs) D i else 0%Qc.
+
 (** the energy kicks at the head of a step order, applied to one row with per-map offsets *)
 Fixpoint ykick_prefix (l : list smap) : list smap :=
   match l with
